@@ -373,6 +373,18 @@ def rule_ind(env, shared):
             out.append(Ob("IND", k, "ok" if okk else "viol", cb.file_line(),
                           "clone owns a fresh counter (value copied)" if okk else
                           "a clone of %s shares the counter of the original" % nm, True))
+    # clone_from is the default (`*self = source.clone()`): an override would have to be proved equal to clone
+    for i in F.impls_of_trait.get("std::clone::Clone", []):
+        a_ = adt_of(i["self_ty"])
+        if a_ is None or not (a_ in R.impl or a_.endswith("::AtomicCounter")):
+            continue
+        k = "IND|%s|clone_from" % a_.split("::")[-1]
+        okk = i["items"].get("clone_from", "default") == "default"
+        out.append(Ob("IND", k, "ok" if okk else "viol", "%s:%s" % (i["loc"]["file"], i["loc"]["line"]),
+                      "clone_from is the default (assigns a clone)" if okk else
+                      "%s overrides Clone::clone_from: `a.clone_from(&b)` is not known to leave `a` equal to `b.clone()` — a "
+                      "partial copy (position without the source, or the reverse) makes the \"clone\" iterate another "
+                      "collection or start at another position" % a_.split("::")[-1]))
     # positive control: the same detector must flag the consuming Vec implementor
     ctrl = [(a, r) for a, r in R.impl.items() if r.get("consuming")]
     if ctrl:
